@@ -709,7 +709,7 @@ NEST_FIELDS = {"enter": ("op", "kind", "arg"), "eval": ("op", "id", "nabsc", "no
                "exit": ("op", "id", "err", "ok")}
 
 
-def nest_class(r, step):
+def nest_class(r, step, clause=""):
     """structural class of the failing step of a history (for the signature only)"""
     ev = r["ev"]
     e = ev[step - 1]
@@ -736,7 +736,7 @@ def nest_class(r, step):
         cls = "nested,inner npts " + ("differs" if any(eff[i] != eff[k] for i in inner) else "same")
     else:
         cls = "nested,inner call"
-    return cls + (",after a mutating integrand" if mut and e["op"] == "eval" else "")
+    return cls + (",after a mutating integrand" if mut and clause == "abscissae_not_mapped_nodes" else "")
 
 
 # ---- what an integrand returns ------------------------------------------------------------------
@@ -1004,7 +1004,7 @@ def signature(r, clause):
                                         (";nx!=ny" if r["nx"] != r["ny"] else ";nx=ny") if r["dim"] == 2 else "")
     if k == "nest":
         cl, _, step = clause.partition("@")
-        return "QGauss.integrate(re-entrant)|%s|%s" % (cl, nest_class(r, int(step)) if step else "?")
+        return "QGauss.integrate(re-entrant)|%s|%s" % (cl, nest_class(r, int(step), cl) if step else "?")
     if k == "seq":
         cl, _, step = clause.partition("@")
         e = r["ev"][int(step) - 1] if step else {"kind": "?", "arg": 0}
